@@ -17,6 +17,7 @@ type cellPayload struct {
 func addOverflow(db *Database, pl cellPayload) ([]byte, error) {
 	to := pl.Payload
 	overflow := pl.Overflow
+	var seen map[int]struct{}
 	for {
 		if overflow == 0 {
 			if int64(len(to)) < pl.Length {
@@ -29,6 +30,14 @@ func addOverflow(db *Database, pl cellPayload) ([]byte, error) {
 			// chain is longer than the payload needs; likely a cycle
 			return nil, ErrCorrupted
 		}
+		if _, ok := seen[overflow]; ok {
+			// a cycle; pl.Length can't be trusted to bound the walk
+			return nil, ErrCorrupted
+		}
+		if seen == nil {
+			seen = map[int]struct{}{}
+		}
+		seen[overflow] = struct{}{}
 		buf, err := db.page(overflow)
 		if err != nil {
 			return nil, err
